@@ -62,7 +62,7 @@ CHECKS['C13'] = dict(
 CHECKS['C14'] = dict(
     technique='two-build self-differential (tagged enum vs NaN-boxed) + reference-model IEEE programs on both builds + Rust-level Value round-trip monitor',
     text='All corpora run on both value representations and must agree on outcome/stdout/error line; IEEE-sensitive generated programs are additionally compared with the reference model on both builds; a Rust tool pushes >= 2*10^5 doubles reachable by arithmetic (incl. -0, infinities, NaNs, subnormals), bools, nil, undefined and objects through Value in each build, checks round trip / classification / equality / hashing and compares a digest across builds.',
-    note=_SELF_NOTE + ' Map iteration order legitimately differs between representations and is never observed by generated programs.', ref='DESIGN.md §2 C14')
+    note=_SELF_NOTE + ' Maps keyed by strings or objects hash by address (order differs from run to run) and are never printed; maps keyed by numbers only hash by value and their order is printed and compared (gen_nummaps).', ref='DESIGN.md §2 C14')
 
 CHECKS['C09'] = dict(
     technique='intern-table invariant hook inside every collection + reference-model differential over string-route pairs under collection schedules with address reuse',
